@@ -277,6 +277,11 @@ func (g *anyGen) leaf(rt *rapid.T) *tw.Expr {
 	case 0, 1:
 		return intLit(rapid.SampledFrom([]int64{0, 1, -1, 2, 3, 5, 1000, 999999, 1 << 31, 9223372036854775807, -9223372036854775808, -5}).Draw(rt, "int"))
 	case 2:
+		if rapid.IntRange(0, 11).Draw(rt, "oddNumber") == 0 {
+			// number-like lexemes the literal parsers may refuse: refused means a parse
+			// error, never a program with a hole in it
+			return rapid.SampledFrom([]*tw.Expr{tw.Float(0, "1.2.3"), tw.Float(0, "0.0.0"), tw.Int(0, "99999999999999999999"), tw.Float(0, "999999999999999999999999999999.5"), tw.Int(0, "007"), tw.Float(0, "1.5.")}).Draw(rt, "odd")
+		}
 		return floatLit(rapid.SampledFrom([]float64{0, 0.5, -1.5, 2.25, 1e10, 123456.789}).Draw(rt, "float"))
 	case 3, 4:
 		return strLit(rt, rapid.SampledFrom([]string{"", "a", "héllo", "日本", "12", "a b c", "<i>", "x,y", "  pad  "}).Draw(rt, "str"))
